@@ -287,12 +287,16 @@ fn eval_conv(t: &mut Toks) -> R<String> {
             ));
         }
         Geometry::Triangle(tr) => {
+            // both entry points, printed separately (they must agree, and both must be [a, b, c, a])
             let p1: Polygon<f64> = Polygon::from(*tr);
             let p2 = tr.to_polygon();
-            if p1 != p2 || !p1.interiors().is_empty() {
-                return Ok("rt-mismatch".into());
-            }
-            out.push_str(&format!(" poly {}", proto::coords(&p1.exterior().0)));
+            out.push_str(&format!(
+                " poly {} {} topoly {} {}",
+                p1.interiors().len(),
+                proto::coords(&p1.exterior().0),
+                p2.interiors().len(),
+                proto::coords(&p2.exterior().0)
+            ));
         }
         Geometry::Line(l) => {
             let ls: LineString<f64> = LineString::from(*l);
